@@ -464,5 +464,82 @@ theorem seek_applied {σ : Type} {W : World} (hW : W.Ok) {D : Decoder σ ℝ} {p
     rw [← hTpos]
     rfl
 
+/-- the transport `Transport::seek_to p` produces, for `n` frames (closed form of `transport_seekTo_closed`) -/
+def seekT (n : Nat) (t : Transport) (p : Nat) : Transport :=
+  { t with position := seekLands t p, playing := if n ≤ seekLands t p then false else t.playing }
+
+/-- **both seek commands pending in one iteration**: `seek_by k` is applied first (relative to the position the
+    audio thread last published), `seek_to x` second (so it decides where the decoder stands); each slot is emptied;
+    the ring is not touched -/
+theorem run_two_seeks {σ : Type} {W : World} {D : Decoder σ ℝ} {pos : σ → Nat} {good : σ → Prop}
+    (C : Dec.Contract D W.frames.toList pos good) {s : Sys σ ℝ} (hin : StreamIn W pos good s)
+    (hv : s.transport.ValidLoop W.n) (h0 : s.core.shared ≠ .stopped) (hd : s.soundDropped = false)
+    (hfull : s.ring.isFull = false) (h1 : s.cmds.setLoopRegion = none) (k x : ℝ) (h2 : s.cmds.seekBy = some k)
+    (h3 : s.cmds.seekTo = some x) (hk : seekIndex s.sampleRate (s.sharedPosition + k) ≤ W.frames.size)
+    (hx : seekIndex s.sampleRate x ≤ W.frames.size) (fuel : Nat) :
+    ∃ s2, Sys.run D fuel s = Sys.produce D fuel s2 ∧
+      s2.transport = seekT W.n (seekT W.n s.transport (seekIndex s.sampleRate (s.sharedPosition + k)))
+        (seekIndex s.sampleRate x) ∧
+      s2.cmds.seekBy = none ∧ s2.cmds.seekTo = none ∧ s2.cmds.setLoopRegion = none ∧ s2.ring = s.ring ∧
+      StreamIn W pos good s2 := by
+  let sa : Sys σ ℝ := { s with cmds := { s.cmds with seekBy := none } }
+  have hina : StreamIn W pos good sa := ⟨hin.cfg_slice, hin.cfg_n, hin.inv⟩
+  obtain ⟨ds1, hinv1, hs1⟩ := seekToIndex_closed (D := D) C hina hv _ hk
+  let T1 : Transport := seekT W.n s.transport (seekIndex s.sampleRate (s.sharedPosition + k))
+  let s1 : Sys σ ℝ := { sa with transport := T1, ds := ds1 }
+  let sb : Sys σ ℝ := { s1 with cmds := { s1.cmds with seekTo := none } }
+  have hinb : StreamIn W pos good sb := ⟨hin.cfg_slice, hin.cfg_n, hinv1⟩
+  have hv1 : sb.transport.ValidLoop W.n := hv
+  obtain ⟨ds2, hinv2, hs2⟩ := seekToIndex_closed (D := D) C hinb hv1 _ hx
+  refine ⟨_, run_seekBy_seekTo D fuel s h0 hd hfull h1 k h2 x s1 _ hs1 h3 hs2, rfl, rfl, rfl, h1, rfl,
+    ⟨hin.cfg_slice, hin.cfg_n, hinv2⟩⟩
+
+theorem seekIndex_zero (sr : Nat) : seekIndex sr 0 = 0 := by
+  have h : trunc (0 : ℝ) = 0 := by rw [trunc_nonneg 0 (le_refl _)]; simp
+  unfold seekIndex roundHalfAway
+  simp only [zero_mul, h]
+  norm_num
+
+/-! ### a concrete state with a seek pending (non-vacuity of the `C09_seek_*` theorems) -/
+
+noncomputable def exSeekWorld : World :=
+  { frames := #[⟨1, 1⟩, ⟨2, 2⟩, ⟨3, 3⟩], slice := none, t0 := ⟨1, some (1, 3), true⟩ }
+
+noncomputable def exSeekSys (cmds : Commands ℝ) : Sys Nat ℝ :=
+  { cfg := ⟨none, 3⟩, sampleRate := 4, cmds := cmds
+    ring := { cap := bufferSize, items := [⟨Frame.zero, 0⟩] }, errRing := Ring.new errorBufferCapacity
+    reachedEnd := false, encounteredError := false, soundDropped := false, sharedPosition := 0
+    ds := ⟨0, 0, none, 0, true⟩, transport := ⟨1, some (1, 3), true⟩
+    core := SoundCore.new .immediate none, currentFrame := 1, frac := 0
+    volume := Parameter.new (.fixed 0) Psm.identityDb, playbackRate := Parameter.new (.fixed 1) (1.0 : ℝ)
+    panning := Parameter.new (.fixed 0) (0.0 : ℝ) }
+
+theorem exSeekWorld_ok : exSeekWorld.Ok :=
+  { slice_ok := by simp [exSeekWorld]
+    valid := by simp [exSeekWorld, Transport.ValidLoop, World.n]
+    playing := rfl }
+
+theorem exSeek_in (cmds : Commands ℝ) : StreamIn exSeekWorld (fun p => p) (fun _ => True) (exSeekSys cmds) :=
+  { cfg_slice := rfl, cfg_n := by simp [exSeekSys, exSeekWorld, World.n]
+    inv := { good_dec := trivial, cur_eq := rfl, chunk_ok := fun c hc => by simp [exSeekSys] at hc } }
+
+theorem exSeek_room (cmds : Commands ℝ) : (exSeekSys cmds).ring.isFull = false := by
+  simp [exSeekSys, Ring.isFull, bufferSize]
+
+/-- hypotheses of `C09_seek_reestablishes_ring_invariant` / `C09_seek_applied_once` -/
+theorem exSeek_pending : SeekPending exSeekWorld (fun p => p) (fun _ => True) (exSeekSys { seekTo := some 0 }) 0 1 0 :=
+  { tIn := exSeek_in _
+    tAt := { ring := by simp [exSeekSys, World.ringSlice, World.ringSeq], transport := rfl, m_pos := Nat.le_refl _
+             played := fun k hk => by omega, reached := rfl }
+    a_le := by omega, cap := rfl
+    alive := by simp [exSeekSys, SoundCore.new]
+    kept := rfl, room := exSeek_room _, running := rfl, noLoop := rfl, noBy := rfl, pending := rfl
+    inData := by rw [seekIndex_zero]; exact Nat.zero_le _
+    inside := by
+      rw [seekIndex_zero]
+      show seekLands ⟨1, some (1, 3), true⟩ 0 < exSeekWorld.n
+      simp [exSeekWorld, World.n]
+      decide }
+
 end Streaming
 end K
